@@ -406,6 +406,8 @@ def exec_for(E, s: ast.For, st, fr):
                     b.assume(z3.Implies(z3.And(0 <= i, i < uso.Len(usq)),
                                         z3.And(uso.Take(usq, i + 1) == uso.App(uso.Take(usq, i), uso.At(usq, i)), uso.Mem(usq, uso.At(usq, i)))))
             b.locals["$idx%d" % id(s)] = V(INT, i + 1)
+            if spec is not None and spec.idx:
+                b.locals["$ghost_" + spec.idx] = V(INT, i)   # visible to the invariants of nested loops
             return E.ex_block(s.body, b, fr)
 
         idxname = "$idx%d" % id(s)
